@@ -348,8 +348,42 @@ func run(e *core.Env) {
 		for _, p := range ms.Net.Pending() {
 			before[p] = true
 		}
-		want := tp.Intn(12)
+		want := tp.Intn(13)
 		switch want {
+		case 12:
+			// X's clock runs ahead (there is one clock in this simulation, so the harness stamps
+			// the frame): a ping of X signed for a time minutes to hours from now. V has no rule
+			// against that and accepts it - from then on it is the newest frame of X. A copy of
+			// an earlier ping of X, stamped about now, is older than that and changes nothing.
+			if op < nOps*2/3 {
+				continue // (afterwards V takes nothing from X any more: towards the end of a run only)
+			}
+			ahead := []time.Duration{2 * time.Minute, 10 * time.Minute, time.Hour, 26 * time.Hour}[tp.Intn(4)]
+			pmsg, _ := cbor.Marshal(map[string]string{"msg": "ping"})
+			body := mesh.PingBody(X, "pong", uint64(tp.Uint32())+1, 0, false, pmsg)
+			if ff, err := X.Inst.Builder.NewFrameV1(X.IP, V.IP, frame.RouterPing, nil, body, nil); err == nil {
+				ff.SetTTL(0)
+				ff.SetSequenceTime(time.Now().Add(ahead).Round(time.Millisecond))
+				_ = ff.SignRaw(X.ID.PrivateKey)
+				ff.SetTTL(31)
+				_ = linkXV.SendPriority(ff)
+				simnet.Wait()
+				ms.Net.DrainFIFO(tp, 500)
+				e.Fault("clock_skew")
+				e.Probe("ping_stamped_ahead_of_the_clock")
+				var mine []int
+				for k := range library {
+					if libSrc[k] == X.IP {
+						mine = append(mine, k)
+					}
+				}
+				for n := 0; n < 3 && len(mine) > 0; n++ {
+					k := mine[tp.Intn(len(mine))]
+					trial(libKinds[k], "replayed-after-a-ping-stamped-ahead", linkXV, append([]byte(nil), library[k]...), false)
+					e.Fault("replay_old")
+				}
+			}
+			continue
 		case 0:
 			// X starts a key setup as the shipped code does when it has no keys for V (any more)
 			_ = X.State.SetEncryptionSession(V.IP, nil)
